@@ -55,7 +55,7 @@ def gen_bool(g, vars_, d):
 
 def gen_str(g, vars_, d):
     r = g.r
-    s = Lit(r.choice(['a', 'b c', '', 'x)', '(', 'q,r', '1+1', 'TRUE', 'é', '日本', 'ß+1', '\u212b', '\U0001f600', "it's", 'a\\b', '100%', '$x', '#', '  pad  ']))
+    s = Lit(r.choice(['a', 'b c', '', 'x)', '(', 'q,r', '1+1', 'TRUE', 'é', '日本', 'ß+1', '\u212b', '\U0001f600', "it's", 'a\\b', '100%', '$x', '#', '  pad  ', 'a\u201c+\u201db', 'she said \u201chi\u201d', '\u201d', '\u2018x\u2019', '\u00abq\u00bb', '\u201ex\u201c', '`', "''", '\uff02']))
     if d <= 0: return s
     other = r.choice([gen_num(g, vars_, d - 1, g.chance(0.5)), gen_bool(g, vars_, d - 1), gen_str(g, vars_, d - 1)])
     return Bin('+', s, other) if g.chance(0.5) else Bin('+', other, s)
